@@ -208,6 +208,25 @@ def _field_changed(b, o, K, transients):
     return canon(b.get(K)) != canon(o.get(K))
 
 
+def _same_cell_triples(case, c):
+    """(base, local, remote) versions of what may be the cell `c` of the merged notebook: matched by id, by equal source,
+    or by position (sides may have re-id'ed cells by changing the minor, or moved them)."""
+    B, L, R = (case[k]["cells"] for k in ("base", "local", "remote"))
+
+    def same(x, y, i, j):
+        if isinstance(x.get("id"), str) and x.get("id") == y.get("id"):
+            return True
+        if x.get("source") and x.get("source") == y.get("source"):
+            return True
+        return i == j
+    out = []
+    for i, b in enumerate(B):
+        ls = [l for j, l in enumerate(L) if same(b, l, i, j)]
+        rs = [r for j, r in enumerate(R) if same(b, r, i, j)]
+        out += [(b, l, r) for l in ls for r in rs]
+    return out
+
+
 def _type_change_vs_field_edit(case, f):
     """One side changed the cell's type (dropping type-specific fields), the other side changed such a field non-transiently."""
     import re
@@ -221,15 +240,7 @@ def _type_change_vs_field_edit(case, f):
     if not names or any(K not in ("outputs", "execution_count", "attachments") for K in names):
         return False
     transients = (d.get("args") or {}).get("transients", True)
-    B, L, R = (case[k]["cells"] for k in ("base", "local", "remote"))
-    if isinstance(c.get("id"), str):
-        def find(cells):
-            return [x for x in cells if x.get("id") == c["id"]]
-        triples = [(b, l, r) for b in find(B) for l in find(L) for r in find(R)]
-        if not triples:
-            triples = list(zip(B, L, R))     # a side changed the id as well: fall back to position
-    else:
-        triples = list(zip(B, L, R))
+    triples = _same_cell_triples(case, c)
     for b, l, r in triples:
         for typ_side, other in ((l, r), (r, l)):
             if typ_side["cell_type"] != b["cell_type"] and other["cell_type"] == b["cell_type"] and all(
